@@ -194,6 +194,26 @@ pub fn run(p: &Params) -> Outcome {
                 ctx.count("stopped_early_after_20000_violations");
                 break;
             }
+            if i < 64 * 7 {
+                    // MSM frames with one satellite at every mask position 1..=64 (and the lone signal at every
+                    // position): masks that are a single bit, including the last one
+                    let pos = (i % 64) as u32 + 1;
+                    let c = (i / 64) as usize % 7;
+                    let kind = 1 + ((w + i as usize) % 7) as u16;
+                    let n = 1070 + 10 * c as u16 + kind;
+                    if gen::is_supported(n) {
+                        for sigpos in [2u32, 32, ((pos - 1) % 32) + 1] {
+                            let mut b = crate::oracle::bits::BitBuf::new();
+                            b.push(n as u128, 12);
+                            b.push(0, 61);
+                            b.push(1u128 << (64 - pos), 64);
+                            b.push(1u128 << (32 - sigpos), 32);
+                            b.push(1, 1);
+                            b.push(0, 200);
+                            check_bytes(ctx, &crate::oracle::crc::frame(&b.into_bytes()), Some(&wt), "msm_frames_with_single_bit_masks");
+                        }
+                    }
+            }
             match i % 16 {
                 0 => {
                     // every 12-bit number with short payloads
